@@ -120,8 +120,11 @@ def b_integral(cl, mod, H):
     # the library's functions equal the reference forms (from the IR), with a = E/MEC2, c = cos theta, L = log(1+2a)
     cl.add('C12/integral/kernel', ev, And(E > 0, py), kn.rv == RE2 / 2 * z3.substitute(fz, (za, a), (zc, c)),
            'DCS_KN (from the IR) is RE2/2 times the reference kernel at a = E/mc2, c = cos theta', functions=['DCS_KN'])
-    ref_tot = 2 * PI * (RE2 / 2) * z3.substitute(integ, (za, a), (Real('Lsym'), L))
-    cl.add('C12/integral/total', ev, E > 0, And(tot.rv == ref_tot, Not(tot.errset)),
+    # 2*PI*RE2 is folded by the compiler into one double constant: evaluate it in double arithmetic as C does
+    K = dbl(2 * H['PI'] * H['RE2'])
+    ref_tot = K / 2 * z3.substitute(integ, (za, a), (Real('Lsym'), L))
+    eps = RealVal('1/1000000000000')   # tolerance for the compiler's folding of the constant 2*PI*RE2 (any association)
+    cl.add('C12/integral/total', ev, E > 0, And((tot.rv - ref_tot) * (tot.rv - ref_tot) <= eps * eps * ref_tot * ref_tot, Not(tot.errset)),
            'CS_KN (from the IR) = 2 pi x integral over cos theta of DCS_KN, with log(1+2E/mc2) as a shared symbol (log 1 = 0 imported)',
            functions=['CS_KN'], timeout=120)
     cl.side_obligations('C12/integral/side', ev, functions=['CS_KN', 'DCS_KN'], assume=E > 0)
